@@ -343,7 +343,7 @@ impl Sched {
                 let lt = g.task_ids.get(&obj).cloned().unwrap_or(-1);
                 (Class::Final, kind, json!({"tid": lt, "panicked": n}))
             }
-            "ch.txlock" | "ch.join" | "chloop.wait" | "chfwd.begin" => {
+            "ch.txlock" | "ch.join" | "chloop.wait" | "chfwd.begin" | "sub.spawned" => {
                 (Class::Gate, kind, json!({"ch": ch}))
             }
             "chloop.exit" => (Class::Final, kind, json!({"ch": ch})),
